@@ -5,6 +5,7 @@ VERIF = os.path.dirname(os.path.dirname(os.path.abspath(__file__)))
 summary = json.load(open(os.path.join(VERIF, "seeded", "summary.json")))
 rows = []
 nblind = 0
+noutside = 0
 for f in sorted(glob.glob(os.path.join(VERIF, "seeded", "*", "meta.json"))):
     m = json.load(open(f))
     sm = summary.get(m["seed"], {})
@@ -16,18 +17,24 @@ for f in sorted(glob.glob(os.path.join(VERIF, "seeded", "*", "meta.json"))):
             how = first[1].strip()[:140].replace("|", "/")
             break
     blind = "as built" if sm.get("blind") else "after strengthening: " + sm.get("strengthening", "")
+    if sm.get("strengthening", "").startswith("NOT A VIOLATION"):
+        blind, caught = sm["strengthening"], "out of the property's scope"
+        noutside += 1
     nblind += 1 if sm.get("blind") else 0
     rows.append("| %s | %s | %s | %s | %s | %s |" % (m["seed"], sm.get("what", ""), sm.get("needs", ""), "yes" if m.get("confirmed") else "NO", caught + (" - " + how if how else ""), blind))
 block = ["### 5.5 Seeded changes (written by sub-agents that saw only the property text; confirmed, then run against the checks)", "",
-         "Three rounds of 20 (rounds 2 and 3, `CNNb` / `CNNc`, were told the one-line descriptions of the earlier changes and asked for a different",
-         "mechanism; round 3 had to change the root module only wherever the property names both generations). Each change",
+         "Four rounds (1-3: one change per property; 4: two per property, `CNNdA` in v2 and `CNNdB` in the root module; rounds 2-4 were told the",
+         "one-line descriptions of the earlier changes and asked for a different mechanism; round 3 had to change the root module only wherever",
+         "the property names both generations). Each change",
          "compiles, passes the repository's own suite, and comes with a demonstration that fails with the change and passes without it",
-         "(`seeded/<id>/`: patch.diff, demonstration, notes.md, meta.json with the commands and what every check printed). All %d are confirmed and" % len(rows),
-         "caught by the quick tier of their property's check; %d were caught by the checks as they stood when the change arrived, the others only after the" % nblind,
-         "check was strengthened (last column; a check was never loosened). The misses had two causes: a shape, sequence or configuration the generators did not",
+         "(`seeded/<id>/`: patch.diff, demonstration, notes.md, meta.json with the commands and what every check printed). All %d are confirmed; %d is outside its" % (len(rows), noutside),
+         "property's scope (a root-module change against the v2-only C09), the other %d are caught by the quick tier of their property's check; %d were caught by the checks as they stood when the change arrived, the others only after the" % (len(rows) - noutside, nblind),
+         "check was strengthened (last column; a check was never loosened). The misses had these causes: a shape, sequence or configuration the generators did not",
          "reach (sibling includes, overlapping requests, filters, deep trees and deep values, encode-while-filling, a failing marshal or response first, a second",
          "request, colliding unrequested key, only-generated output directory, user directory at a generated path, rich default literals, annotations, short",
-         "network reads, lenient client, key order on the wire), and twice the driver (a crash in every shard, and a job that cannot drive channel operations,",
+         "network reads, lenient client, key order on the wire, cross-namespace includes, failed decodes first, colliding requested keys, byte arrays in untyped values,",
+         "wildcard next to named spec entries, whole-record annotations, 16 KiB texts, parameter-only key variants, extended hashes, namespaces sharing a last segment, GOOS-suffixed type",
+         "names, 4 KiB+ queries, host named like the root, concurrent registrations), once a vacuous condition in a check (C10 key-hash law guarded by a predicate that is true for equal values), and twice the driver (a crash in every shard, and a job that cannot drive channel operations,",
          "were reported as inconclusive instead of letting the other jobs decide).", "",
          "| seed | change | needs, to manifest | confirmed | caught by (quick tier) | caught |", "|---|---|---|---|---|---|"] + rows + [""]
 p = os.path.join(VERIF, "DESIGN.md")
